@@ -379,7 +379,9 @@ actually uses (it supplies the zone's origin to a generic-syntax style that has 
 `Lossless st'` (TTLs not omitted, first owner of a node printed, owner column not right-justified, `$TTL` value in
 range); the zone — in the order written, with the comments the text carries — is well formed (`ZoneWF`); every record
 is readable (`RecOK`: the name algebra of its owner, the type token, and the RDATA codec behind the C05 interface
-`RdataReads`, for the RDATA text under *this* style: chunking, generic form, trailing comment, padding).
+`RdataReads`, for the RDATA text under *this* style: chunking, generic form, trailing comment, padding); the zone origin
+is an absolute name (`dns.zone.Zone` requires it; the reader completes the `$ORIGIN` argument with the origin it was
+given and rejects a name that is still relative — commit c444c98).
 Conclusion: the text written loads back — given the origin, or, when `$ORIGIN` is emitted and the zone is not empty,
 without it — to exactly that zone.  Every knob is free: `sorted`, `want_origin`, `default_ttl` (any value, 0 included),
 `deduplicate_names`, the four justifications, `want_comments`, `omit_rdclass`, `want_generic`, the name style
@@ -391,6 +393,7 @@ theorem read_write_lossless (st : Style) (z : ZoneMap) (zo : Name) (rel gfix : B
       writeOrder (adjustStyle st (some zo) rel).sorted z ≠ []))
     (hotext : (adjustStyle st (some zo) rel).wantOrigin = true →
       identOK (toText zo) = true ∧ toText zo ≠ [] ∧ fromText (toText zo) none = .ok zo)
+    (hzabs : isAbs zo = true)
     (hname : ∀ p ∈ writeOrder (adjustStyle st (some zo) rel).sorted z,
       nameToStyledText (adjustStyle st (some zo) rel).toNameStyle p.1 = .ok (owOf p.1))
     (htext : ∀ p ∈ writeOrder (adjustStyle st (some zo) rel).sorted z, ∀ rds ∈ p.2, ∀ rr ∈ rds.rrs,
@@ -404,7 +407,7 @@ theorem read_write_lossless (st : Style) (z : ZoneMap) (zo : Name) (rel gfix : B
         .ok (keptZone (adjustStyle st (some zo) rel) (writeOrder (adjustStyle st (some zo) rel).sorted z), some zo) := by
   obtain ⟨hnd, hne⟩ := zoneWF_shape _ _ _ hwf
   exact ⟨_, zoneToText_spec st zo z rel owOf rtextOf hname hnd hne htext,
-    read_write_lossless_core _ _ zo rel gfix origin? owOf absOf rtextOf hl horig hotext hwf hrec⟩
+    read_write_lossless_core _ _ zo rel gfix origin? owOf absOf rtextOf hl horig hotext hzabs hwf hrec⟩
 
 /-- every single knob of the lossless set, and all of them together, satisfy `Lossless` (the instances of
 `read_write_lossless` the property text enumerates: `$ORIGIN` emission, `$TTL` emission incl. 0, owner de-duplication,
@@ -756,7 +759,8 @@ example (r0 : PState) (rest : List Nat) (hrel : r0.relativize = true) (hg : r0.g
   · rw [hexp]; rfl
 
 /-- **"$GENERATE versus its expansion" in a file with arbitrary preceding `$ORIGIN` directives**: after any run
-`$ORIGIN t₁⏎ … $ORIGIN tₙ⏎` (zone origin `zo` known, so none of them changes it) the `$GENERATE` line and the explicit
+`$ORIGIN t₁⏎ … $ORIGIN tₙ⏎` (zone origin `zo` known, so none of them changes it; each argument absolute or relative,
+completed with the origin current at that point — `OriginsOK`) the `$GENERATE` line and the explicit
 lines of its expansion are read alike, with relative names on both sides completed with the origin `co` of the last
 directive and stored relative to the zone origin `zo`.  (A `$GENERATE` loop that relativized its RDATA against the
 current origin instead — seeded change C09-c — fails `hitems` for name-bearing RDATA as soon as `co ≠ zo`: see the
@@ -765,7 +769,7 @@ theorem generate_after_origin_directives (f : Nat) (r : PState) (z : ZoneMap) (c
     (ds : List (List Nat × Name))
     (rangeT lhs ttlT clsT tyT rhs rest : List Nat) (a b st ttl ty : Nat) (lm rm : Modify)
     (e : List Nat × List Nat → Entry) (nOf : List Nat × List Nat → Name) (ls : List GLine)
-    (hzo : r.zoneOrigin = some zo) (hds : OriginsOK ds) (hco : lastOrigin r.currentOrigin ds = some co)
+    (hzo : r.zoneOrigin = some zo) (hds : OriginsOK r.currentOrigin ds) (hco : lastOrigin r.currentOrigin ds = some co)
     (k1 : TokOK rangeT) (k2 : TokOK lhs) (k3 : TokOK ttlT) (k4 : TokOK clsT) (k5 : TokOK tyT) (k6 : TokOK rhs)
     (hrange : grangeFromText rangeT = .ok (a, b, st)) (httl : ttlOf ttlT = some ttl)
     (hcls : classFromText clsT = some 1) (hty : typeFromText tyT = some ty)
@@ -792,6 +796,21 @@ theorem generate_after_origin_directives (f : Nat) (r : PState) (z : ZoneMap) (c
   simp only [hco]
   exact generate_eq_expansion_text f { r with currentOrigin := some co } z co zo rangeT lhs ttlT clsT tyT rhs rest
     a b st ttl ty lm rm e nOf ls rfl hzo k1 k2 k3 k4 k5 k6 hrange httl hcls hty hlm hrm hitems hls hne hok hu hlast
+
+/-- a run of directives with relative and absolute arguments: under `ex.`, `$ORIGIN hosts` / `$ORIGIN deep` /
+`$ORIGIN ex.` lead to `hosts.ex.`, `deep.hosts.ex.` and back to `ex.` (the relative spelling and the absolute one name
+the same origin — the regression of the finding repaired by c444c98) -/
+example :
+    let ex : Name := [[101, 120], []]
+    let hosts : List Nat := [104, 111, 115, 116, 115]
+    let ds : List (List Nat × Name) :=
+      [(s2l "hosts", hosts :: ex), (s2l "deep", s2l "deep" :: hosts :: ex), (s2l "ex.", ex)]
+    OriginsOK (some ex) ds ∧ lastOrigin (some ex) ds = some ex ∧
+    (identToken (s2l "hosts")).asName (some ex) false none = (identToken (s2l "hosts.ex.")).asName (some ex) false none ∧
+    (identToken (s2l "hosts")).asName none false none = .ok [hosts] ∧ isAbs [hosts] = false := by
+  intro ex hosts ds
+  refine ⟨⟨by decide, by decide, by rfl, by decide, by decide, by decide, by rfl, by decide, by decide, by decide, by rfl,
+    by decide, trivial⟩, rfl, by rfl, by rfl, by decide⟩
 
 /-- non-vacuity with a current origin that is not the zone origin and name-bearing RDATA: in the relativized zone `ex.`,
 after `$ORIGIN hosts.ex.`, the line `$GENERATE 1-2 a$ 300 IN CNAME h$` against `a1 300 IN CNAME h1`, `a2 300 IN CNAME h2`:
